@@ -47,6 +47,36 @@ CYCLES = {
     "thread-wait-cancelled": "(let [f (ev/spawn (protect (ev/thread (fn [&] (ev/sleep 0.003)))))] (ev/sleep 0.001) (ev/cancel f :stop) (ev/sleep 0.006))",
     "spawn-fails-with-pipes": "(protect (os/spawn [\"/nonexistent-sim-marker/prog\"] :p {:in :pipe :out :pipe :err :pipe}))",
     "spawn-fails-no-path-lookup": "(protect (os/spawn [\"nonexistent-prog\"] : {:out :pipe}))",
+    "connect-fails": "(protect (net/connect :unix (string \"@jsim-c20-nobody-\" (os/getpid))))",
+    "listen-twice-fails": "(let [name (string \"@jsim-c20-l-\" (os/getpid)) s (net/listen :unix name)] (protect (net/listen :unix name)) (:close s))",
+    "accept-timeout": "(let [name (string \"@jsim-c20-a-\" (os/getpid)) s (net/listen :unix name)] (protect (net/accept s 0.002)) (:close s))",
+    "accept-loop-closed": "(let [name (string \"@jsim-c20-al-\" (os/getpid)) s (net/listen :unix name) f (ev/go (fn [] (protect (net/accept-loop s (fn [c] (:close c))))))] "
+                          "(let [c (net/connect :unix name)] (ev/sleep 0.001) (:close c)) (:close s) (ev/sleep 0.001) (ev/cancel f :stop))",
+    "server-handler-error": "(let [name (string \"@jsim-c20-se-\" (os/getpid)) s (net/server :unix name (fn [c] (error :handler-boom)))] "
+                            "(let [c (net/connect :unix name)] (protect (ev/read c 1 @\"\" 0.002)) (:close c)) (:close s) (ev/sleep 0.001))",
+    "dgram-pair": "(let [name (string \"@jsim-c20-dg-\" (os/getpid)) s (net/listen :unix name :datagram) c (net/connect :unix name :datagram)] "
+                  "(ev/write c \"dgram\") (net/recv-from s 16 @\"\") (:close c) (:close s))",
+    "to-file-dup": "(let [[r w] (os/pipe)] (def f (ev/to-file w)) (file/write f \"x\") (file/close f) (:close w) (ev/read r 1) (:close r))",
+    "to-file-dropped": "(let [[r w] (os/pipe)] (ev/to-file w) (:close w) (:close r) (gccollect) nil)",
+    "pipe-flags": "(let [[r w] (os/pipe :W)] (:close r) (:close w))",
+    "proc-kill-wait": "(let [p (os/spawn [\"sim-child\" \"s100000\"] :p)] (os/proc-kill p true :term))",
+    "proc-kill-nowait-close": "(let [p (os/spawn [\"sim-child\" \"s100000\"] :p {:in :pipe :out :pipe})] (os/proc-kill p) (os/proc-close p))",
+    "proc-close-running": "(let [p (os/spawn [\"sim-child\" \"R\" \"x0\"] :p {:in :pipe})] (os/proc-close p))",
+    "execute-fails": "(protect (os/execute [\"/nonexistent-sim-marker/prog\"] :x))",
+    "execute-x-nonzero": "(protect (os/execute [\"sim-child\" \"x3\"] :px))",
+    "thread-error": "(protect (ev/thread (fn [&] (error :thread-boom))))",
+    "do-thread": "(ev/do-thread (+ 1 2))",
+    "thread-supervised": "(let [sup (ev/thread-chan 4)] (ev/thread (fn [&] (error :boom)) nil :nt sup) (ev/take sup))",
+    "task-supervised-error": "(let [sup (ev/chan 4)] (ev/go (fn [] (error :boom)) nil sup) (ev/take sup))",
+    "rselect-abandon": "(let [a (ev/chan) b (ev/chan 1)] (ev/give b 1) (ev/rselect a b [a 5]))",
+    "chan-close-with-waiters": "(let [c (ev/chan)] (ev/spawn (protect (ev/take c))) (ev/spawn (protect (ev/give c 1) (ev/give c 2))) (ev/sleep 0) (ev/chan-close c) (ev/sleep 0))",
+    "thread-chan-close-with-waiter": "(let [c (ev/thread-chan 0)] (ev/spawn-thread (protect (ev/take c))) (ev/sleep 0.002) (ev/chan-close c) (ev/sleep 0.002))",
+    "rwlock-cycle": "(let [l (ev/rwlock)] (ev/acquire-rlock l) (ev/release-rlock l) (ev/acquire-wlock l) (ev/release-wlock l))",
+    "deadline-nested": "(protect (ev/with-deadline 0.004 (protect (ev/with-deadline 0.001 (ev/sleep 0.01))) (ev/sleep 0.001)))",
+    "gather-all-ok": "(ev/gather (ev/sleep 0.001) (ev/sleep 0.002) (+ 1 2))",
+    "chunk-eof": "(let [[r w] (os/pipe)] (ev/write w \"abc\") (:close w) (ev/chunk r 10) (:close r))",
+    "write-to-closed-reader": "(let [[r w] (os/pipe)] (:close r) (protect (ev/write w \"abc\")) (:close w))",
+    "marshal-chan": "(let [c (ev/chan 2)] (ev/give c 1) (unmarshal (marshal c)))",
     "to-file-less": "(let [[r w] (os/pipe)] (ev/write w (string/repeat \"x\" 5000)) (:close w) (ev/read r :all) (:close r))",
 }
 # counters that must not grow at all between N1 and N2 cycles, and those with a constant allowance
